@@ -145,6 +145,12 @@ def values_corruptions():
     def bb_fmt(e):
         e["pretty"][16] = 88 if e["pretty"][16] == 46 else 46      # a8 drawn the other way
 
+    def bb_nth(e):
+        e["ad"]["rest"] = e["ad"]["rest"][1:]
+
+    def pm_nth_len(e):
+        e["ad"]["len"] += 1
+
     def pm_len(e):
         e["len"] += 1
 
@@ -176,6 +182,8 @@ def values_corruptions():
         ("bitboard union lost a square", "bb_op", lambda e: len(e["or"]["v"]) > 0, bb_or, "C18"),
         ("bitboard iteration order reversed", "bb_iter", lambda e: len(e["seq"]) > 1, bb_iter, "C18"),
         ("two subsets swapped in subset iteration", "bb_subsets", lambda e: len(e["subs"]) > 3, bb_sub, "C18"),
+        ("an item missing after nth on a bitboard iterator", "bb_iter", lambda e: e["k"] == "ok" and len(e["ad"]["rest"]) > 0, bb_nth, "C18"),
+        ("remaining length after nth on a move iterator off by one", "pm", lambda e: e["k"] == "ok" and e["ad"]["k"] == "ok", pm_nth_len, "C17"),
         ("Debug board text shows a8 the other way", "bb_fmt", lambda e: e["k"] == "ok", bb_fmt, "EXT"),
         ("PieceMoves::len off by one", "pm", lambda e: e["k"] == "ok", pm_len, "C17"),
         ("PieceMoves::has accepts a king promotion", "pm", lambda e: len(e["to"]) > 0, pm_has, "C17"),
